@@ -257,6 +257,7 @@ class Case:
         expect = KIND_DIFFERENCES.expected_kind(opname, form, params, [a.kind for a in args], n.kind)
         if expect != n.kind:
             res.count(f'accepted_kind_difference/{opname}')
+            n.vals = n.vals.astype(NPTYPE[expect])      # downstream references continue from the value nutils documents
         n.kind = expect
         got = {bool: 'b', int: 'i', float: 'f', complex: 'c'}.get(f.dtype, '?')
         if got != expect:
